@@ -20,7 +20,10 @@ pub fn tree(prop: &str) -> TreeSpec {
         lit("bom.txt", b"\xef\xbb\xbfplain text after a byte order mark\n"),
         lit("onlybom16.txt", b"\xff\xfe"),
         lit("crlf.csv", b"a,b\r\n1,2\r\n3,4\r\n"),
+        lit("plain-without-extension", b"nothing in particular\n"),
+        lit("other.bin", b"\x01\x02\x03 nothing in particular"),
         lit("image-without-extension", b"\x89PNG\r\n\x1a\n\0\0\0\rIHDR\0\0\0\x01\0\0\0\x01\x08\x06rest"),
+        lit("signature.bin", b"GIF89a\x01\0\x01\0\x80\0\0rest"),
         lit("doc.pdf", b"%PDF-1.7\n%\xe2\xe3\xcf\xd3\nrest of the document"),
         lit("photo.jpg", b"\xff\xd8\xff\xe0\0\x10JFIF\0\x01\x01rest"),
         lit("file.txt.part", b"partial"),
@@ -51,7 +54,7 @@ pub fn tree(prop: &str) -> TreeSpec {
 
 pub const PATHS: &[&str] = &[
     "/file.txt", "/page.html", "/page", "/d/", "/d", "/big.bin", "/empty.txt", "/one.txt", "/missing.txt", "/", "/style.css",
-    "/bom.json", "/bom.txt", "/onlybom16.txt", "/crlf.csv", "/image-without-extension", "/doc.pdf", "/photo.jpg", "/file.txt.part", "/file.txt.bak", "/file.txt.gz",
+    "/bom.json", "/bom.txt", "/onlybom16.txt", "/crlf.csv", "/image-without-extension", "/signature.bin", "/doc.pdf", "/photo.jpg", "/file.txt.part", "/file.txt.bak", "/file.txt.gz",
     "/app.3f9a1c0b.js", "/main.d52a326aad007bd1.css", "/image@2x.png", "/favicon.ico", "/.htaccess", "/.well-known/security.txt", "/.well-known/acme-challenge/tok-1",
     "/d/rws.config.toml", "/sub/dir/", "/sub/page", "/\u{434}\u{43e}\u{43a}/\u{444}\u{430}\u{439}\u{43b}.txt", "/medium.bin", "/large.bin", "/larger.bin", "/sub/up.txt", "/ln.txt",
     "/form-get-method?a=1", "/file.txt?download=1&filename=x.txt", "/d/index.html#top",
@@ -116,6 +119,16 @@ pub fn scenario(prop: &'static str, seed: u64, idx: u64) -> Scenario {
         sc.conns.push(b);
     } else {
         sc.conns.push(Conn::simple(0, 0, req(m, p, &h, b""), "matrix"));
+        if prop == "C02" {
+            // a plain file of the same (absent or unregistered) extension in the same run: "same
+            // extension, same media type" has something to compare with
+            let name = p.rsplit('/').next().unwrap_or("");
+            if !name.contains('.') {
+                sc.conns.push(Conn::simple(1, 1, get("/plain-without-extension"), "matrix_peer"));
+            } else if name.ends_with(".bin") {
+                sc.conns.push(Conn::simple(1, 1, get("/other.bin"), "matrix_peer"));
+            }
+        }
         if prop == "C04" || prop == "C06" {
             sc.probe = Probe::FollowUp { request: probe_request().into() };
         }
